@@ -88,6 +88,8 @@ BIG = [2 ** 31, 2 ** 53 + 1, 2 ** 63 - 1, 2 ** 63, 2 ** 64, -2 ** 63, -2 ** 63 -
 
 def gen_comp(rng, kind, vec=False, big=False):
     fl = rng.choice(["py", "py", "py", "np", "np32"])
+    if kind == "i" and rng.random() < 0.06:
+        return ["i", rng.choice([0, 3, 200, 255]), "u8"]       # numpy.uint8 is one of Attribute.Type.Int's values
     if big and kind == "i" and rng.random() < 0.08:
         return ["i", rng.choice(BIG), "py"]      # beyond int32 / the exact doubles / int64 / the doubles
     if kind == "b":
@@ -129,7 +131,7 @@ def gen_value(rng, t, k, malformed):
     if not malformed:
         if t == "str" and rng.random() < 0.2:
             return ["str", "".join(rng.choice("abcd") for _ in range(k))]
-        shape = rng.choice(["list", "list", "tuple", "nparr"])
+        shape = rng.choice(["list", "list", "tuple", "nparr", "gen"])
         if shape == "nparr" and TKIND[t] in RANK:
             kd = rng.choice(ok)
             return ["nparr", [gen_comp(rng, kd, True)[:2] + ["py"] for _ in range(k)]]
@@ -347,7 +349,7 @@ def gen_history(rng, maxlen=40):
             ops.append(["append"])
             n += 1
         elif nm == "extend_list":
-            m = rng.choice([0, 1, 2, 3])
+            m = rng.choice([0, 1, 2, 3]) if (n > 40 or rng.random() > 0.004) else 270      # rarely: indices beyond 256
             ops.append(["extend_list", m, rng.choice(["list", "list", "tuple", "set"])])
             n += m
         elif nm == "extend_other":
@@ -360,7 +362,7 @@ def gen_history(rng, maxlen=40):
             ops.append(["extend_self"])
             n += n
         elif nm == "extend_bad":
-            ops.append(["extend_bad", rng.choice(["range", "nparray", "dict", "none"])])
+            ops.append(["extend_bad", rng.choice(["range", "nparray", "dict", "none", "iter", "gen", "keys", "map"])])
         elif nm in ("clear_attr", "as_array", "len", "iter", "has"):
             l = rng.choice(logical()) if (meta and rng.random() > 0.05) else rng.randrange(3)
             for a in names_of(l):
@@ -419,7 +421,7 @@ def value_components(v, k):
         if v[0] == "str":
             return [["s", v[1]]]
         return None
-    if v[0] in ("list", "tuple"):
+    if v[0] in ("list", "tuple", "gen"):
         return list(v[1])
     if v[0] == "nparr":
         out = []
@@ -810,7 +812,7 @@ def value_term(v, I):
     k = v[0]
     if k == "scal":
         return "(VScal %s)" % comp_term(v[1], I)
-    if k in ("list", "tuple"):
+    if k in ("list", "tuple", "gen"):
         return "(VSeq %s)" % coq_list([comp_term(c, I) for c in v[1]])
     if k == "nparr":
         # numpy arrays of complex / str hand out numpy scalar types outside the attribute vocabulary
